@@ -512,8 +512,11 @@ pub fn run_concurrent(sc: &Scenario) -> RunReport {
             }
         }
         // the shared iterator `it` walks 6 elements: every pull increments its index exactly once,
-        // so at most 6 pulls - by whichever threads - can report an element
-        for (path, len) in [(0usize, ITER_ITEMS.len()), (1, ITER2_ITEMS.len())] {
+        // so at most 6 pulls - by whichever threads - can report an element. (Which element a pull
+        // reports is NOT demanded: the helper increments the index and reads it again, so two
+        // concurrent pulls may report the same element. For the filtered pipeline `pipe` the bound
+        // is therefore the length of its SOURCE, not the number of elements that pass the filter.)
+        for (path, len) in [(0usize, ITER_ITEMS.len()), (1, ITER2_ITEMS.len()), (2, crate::cellmodel::PIPE_SOURCE_LEN)] {
             let delivered = hist.iter().filter(|h| matches!(h.op.kind, OpKind::Pull) && h.op.path == path).filter(|h| obs_text(&h.obs).starts_with("(true")).count();
             if delivered > len {
                 rep.violation = Some(("iterator-overdelivers".into(), format!("{delivered} pulls from the shared {len}-element iterator reported an element (its index is a cell incremented once per pull)")));
